@@ -365,10 +365,11 @@ Proof. vm_compute. repeat split; reflexivity. Qed.
 Example ex6_chain_theorem :
   msgs_gas (inflight (wrun c6 w0 h6_nft)) + gas_out_sum c6 w0 h6_nft <= 50000.
 Proof.
-  apply (chain_no_gas_created c6 w0 0 C.BuiltInFunctionESDTNFTTransfer _ [ODeliver 0 49440]).
-  - reflexivity.
-  - apply honest_gas_b_ok. vm_compute. reflexivity.
-  - repeat constructor.
+  assert (H1 : honest_gas c6 w0 h6_nft) by (apply honest_gas_b_ok; vm_compute; reflexivity).
+  assert (H2 : Forall not_call [ODeliver 0 49440]) by (repeat constructor).
+  exact (chain_no_gas_created c6 w0 0 C.BuiltInFunctionESDTNFTTransfer
+           (in6 alice alice [nftA; u64_bytes 1; u64_bytes 2; kate6; str "doIt"%string; str "arg"%string] true true 50000)
+           [ODeliver 0 49440] eq_refl H1 H2).
 Qed.
 (* without an attached call the remainder stays at the origin and the message carries no gas *)
 Definition op6_plain : wop := OCall 0 C.BuiltInFunctionESDTNFTTransfer
